@@ -139,6 +139,15 @@ def cases(shard, nshards, seed, tier):
         if not mine():
             continue
         rng = random.Random(f"{seed}:C02:r:{i}")
+        if i % 3 == 0:
+            # several independent knotted domains side by side (different level needs)
+            off, allp = 0, []
+            for blk in range(rng.randint(2, 3)):
+                n1, p1 = gen2d.random_stems(rng, rng.randint(2, 4), maxlen=rng.choice([1, 2, 5]), spacer=(0, 2), shape=rng.choice([None, "ladder", "chain"]))
+                allp += [(a + off, b + off) for a, b in p1]
+                off += n1
+            yield {"family": "random-multi-domain", "n": off, "pairs": sorted(allp)}
+            continue
         n, pairs = knotted_random(rng, big=(i % 5 == 0))
         yield {"family": "random-knotted", "n": n, "pairs": pairs}
     if tier == "thorough" and mine():
